@@ -11,6 +11,7 @@ import (
 	"github.com/glyphlang/glyph/pkg/database"
 	"github.com/glyphlang/glyph/pkg/interpreter"
 	"github.com/glyphlang/glyph/pkg/parser"
+	"github.com/glyphlang/glyph/pkg/redis"
 )
 
 type server struct {
@@ -312,4 +313,63 @@ func VerifC08_SharedConstant() {
 	zzverif.Assert(same(a, interface{}(p+":new:new,unread,inbox")), "constant: first reply is not the served-alone reply")
 	zzverif.Assert(same(b, interface{}(q+":new:new,unread,inbox")), "constant: second reply is not the served-alone reply")
 	zzverif.Reach("const")
+}
+
+// ---------------------------------------------------------------------------
+// the in-memory Redis provider (what `glyph run` injects when GLYPH_REDIS_URL
+// is unset): incr/decr are single provider operations
+
+const srcRedis = `
+@ GET /incr {
+  % redis: Redis
+  > redis.incr("hits")
+}
+
+@ GET /decr {
+  % redis: Redis
+  > redis.decr("hits")
+}
+
+@ GET /hits {
+  % redis: Redis
+  > redis.get("hits")
+}
+`
+
+func newRedisServer() *server {
+	s := newServer(srcRedis)
+	s.in.SetRedisHandler(redis.NewMockHandler())
+	return s
+}
+
+func VerifC08_RedisTwoIncrs() {
+	s := newRedisServer()
+	pre := zzverif.Choice("increments before", 2)
+	for i := 0; i < pre; i++ {
+		s.get("/incr", "/incr", nil)
+	}
+	a, b := both(
+		func() reply { return s.get("/incr", "/incr", nil) },
+		func() reply { return s.get("/incr", "/incr", nil) },
+	)
+	zzverif.Assert(a.ok && b.ok, "redis: concurrent incr failed")
+	lo, hi := interface{}(int64(pre+1)), interface{}(int64(pre+2))
+	zzverif.Assert((a.body == lo && b.body == hi) || (a.body == hi && b.body == lo), "redis: two concurrent incr requests were not answered n+1 and n+2")
+	n := s.get("/hits", "/hits", nil)
+	zzverif.Assert(same(n, interface{}(strconv.Itoa(pre+2))), "redis: a concurrent incr was lost")
+	zzverif.Reach("redis-incr")
+}
+
+func VerifC08_RedisIncrVsDecr() {
+	s := newRedisServer()
+	s.get("/incr", "/incr", nil)
+	a, b := both(
+		func() reply { return s.get("/incr", "/incr", nil) },
+		func() reply { return s.get("/decr", "/decr", nil) },
+	)
+	zzverif.Assert(a.ok && b.ok, "redis: concurrent incr/decr failed")
+	zzverif.Assert((a.body == interface{}(int64(2)) && b.body == interface{}(int64(1))) || (a.body == interface{}(int64(1)) && b.body == interface{}(int64(0))), "redis: concurrent incr and decr answered as no sequential order would")
+	n := s.get("/hits", "/hits", nil)
+	zzverif.Assert(same(n, interface{}("1")), "redis: concurrent incr and decr did not cancel out")
+	zzverif.Reach("redis-incr-decr")
 }
